@@ -157,7 +157,7 @@ class Impl:
             # x@sd2, x@sd1, (lam@intf); only x is written/read/shifted
             self.var = self.es.create_variables("x", dof_info={"cells": 1}, subdomains=mdg.subdomains())
             self.es.create_variables("lam", interfaces=mdg.interfaces())
-            self.varforms = [[self.var], ["x"], list(self.var.sub_vars)]
+            self.varforms = [[self.var], ["x"], list(self.var.sub_vars), list(reversed(self.var.sub_vars))]
         n = int(sum(self.es.dofs_of([v]).size for v in self.var.sub_vars))
         self.pat_e = np.arange(1.0, n + 1.0) * 2.0 - 1.0  # 1,3,5,...
         self.nops = 0
